@@ -54,7 +54,7 @@ class C01(CheckBase):
             raise RuntimeError("no schema library could be built: %s" % self.ss.rejected)
 
     def n_plans(self, tier):
-        return 1500 if tier == "quick" else 60000
+        return 6000 if tier == "quick" else 250000
 
     def time_budget(self, tier):
         return 150 if tier == "quick" else 1500
@@ -166,10 +166,10 @@ class C01(CheckBase):
         for n, o in enumerate(reads):
             if o.get("skipped"):
                 continue
-            if o["sev"] != 3:
+            if o["sev"] < 2:      # worse than a user message (SEVERITY_USERMSG = 2, SEVERITY_NULL = 3): C03's own definition of "error"
                 which = "input" if n == 0 else "own-output"
                 add("C01/read-error/%s/%s" % (which, slug(o.get("detailmsg") or o.get("usermsg") or "")),
-                    "read #%d (%s) ended with severity %d (3 = none): %s | %s" % (n, which, o["sev"], o.get("usermsg", "")[:300], o.get("detailmsg", "")[:500]))
+                    "read #%d (%s) ended with severity %d (3 = none, 2 = user message): %s | %s" % (n, which, o["sev"], o.get("usermsg", "")[:300], o.get("detailmsg", "")[:500]))
         # (ii) first written file denotes the same population
         model = plan["model"]
         if writes:
